@@ -632,6 +632,53 @@ pub fn run(ctx: &Ctx) -> Finish {
             }
         });
     }
+    // small but not negligible coefficients: 2^-45 is far above machine epsilon (2^-52), so no documented
+    // dropping applies; sums and differences must keep it (all values exact)
+    {
+        let sm = 2f64.powi(-45);
+        let smalls: Vec<Opd> = vec![
+            Opd::Num(sm),
+            Opd::Lin(FnRep::Lin { terms: vec![(1, sm), (2, 2.0)], c: 0.0 }),
+            Opd::Lin(FnRep::Lin { terms: vec![(1, 1.0 + sm)], c: 1.0 }),
+            Opd::Quad(FnRep::Quad { entries: vec![(1, 2, sm)], lin: Some((vec![(7, -sm)], sm)) }),
+            Opd::Pol(FnRep::Poly { terms: vec![(vec![1, 2, 7], sm), (vec![2], -sm), (vec![], 1.0)] }),
+            Opd::Fun(FnRep::Lin { terms: vec![(2, sm)], c: -sm }),
+            Opd::Fun(FnRep::Quad { entries: vec![(2, 2, 1.0 + sm)], lin: None }),
+            Opd::Fun(FnRep::Const(sm)),
+        ];
+        let regs: Vec<Opd> = vec![
+            Opd::Num(3.0),
+            Opd::Dv(1),
+            Opd::Par(2),
+            Opd::Lin(FnRep::Lin { terms: vec![(2, 3.0), (1, -1.0)], c: 0.5 }),
+            Opd::Quad(FnRep::Quad { entries: vec![(2, 1, 1.0)], lin: Some((vec![(7, 1.0)], 0.0)) }),
+            Opd::Pol(FnRep::Poly { terms: vec![(vec![7, 2, 1], 2.0), (vec![2], 1.0)] }),
+            Opd::Fun(FnRep::Lin { terms: vec![(1, -1.0)], c: 0.0 }),
+            Opd::Fun(FnRep::Quad { entries: vec![(2, 2, -1.0)], lin: Some((vec![(2, 1.0)], 1.0)) }),
+        ];
+        ctx.seq(|l| {
+            for im in table.iter().filter(|im| !im.name.contains('*')) {
+                match im.rk {
+                    None => {
+                        for a in smalls.iter().filter(|a| a.kind() == im.lk) {
+                            l.states += 1;
+                            check_case(l, &table, &Case::Op { name: im.name.to_string(), a: a.clone(), b: None });
+                        }
+                    }
+                    Some(rk) => {
+                        for (xs, ys) in [(&smalls, &regs), (&regs, &smalls), (&smalls, &smalls)] {
+                            for a in xs.iter().filter(|a| a.kind() == im.lk) {
+                                for b in ys.iter().filter(|b| b.kind() == rk) {
+                                    l.states += 1;
+                                    check_case(l, &table, &Case::Op { name: im.name.to_string(), a: a.clone(), b: Some(b.clone()) });
+                                }
+                            }
+                        }
+                    }
+                }
+            }
+        });
+    }
     // id extremes: 0, an id above 2^32 next to its low 32 bits, u64::MAX - every impl on every pair of a
     // small pool per kind (ids are opaque 64-bit numbers; nothing may depend on their size)
     {
@@ -759,7 +806,7 @@ pub fn run(ctx: &Ctx) -> Finish {
     let thinned = ctx.notes.lock().unwrap().keys().any(|k| k.starts_with("thinned/"));
     Finish {
         level: "model_checking",
-        rule: "every operator impl of the API (Add/Sub/Mul/Neg over f64, &DecisionVariable, &Parameter, Linear, Quadratic, Polynomial, Function; Sum/Product) x every ordered pair of operand values from closed pools (all representations: unsorted, repeated, lower/upper triangle, explicit zeros, absent linear part), from a pool with id extremes (0, 2^32+3 next to 3, u64::MAX) and from a pool of long operands (33 / 65 terms); result read through public fields and compared with exact polynomial arithmetic; non-trivial = both operands non-zero".into(),
+        rule: "every operator impl of the API (Add/Sub/Mul/Neg over f64, &DecisionVariable, &Parameter, Linear, Quadratic, Polynomial, Function; Sum/Product) x every ordered pair of operand values from closed pools (all representations: unsorted, repeated, lower/upper triangle, explicit zeros, absent linear part), from a pool with id extremes (0, 2^32+3 next to 3, u64::MAX), from a pool of long operands (33 / 65 terms) and, for sums and differences, from a pool with 2^-45 coefficients; result read through public fields and compared with exact polynomial arithmetic; non-trivial = both operands non-zero".into(),
         bounds: json!({"ids": [1,2,7], "parameter_ids": [10,2], "numbers": [0,-1,0.5,3], "terms_max": ctx.tier.pick(2,3), "fold_len_max": 3,
             "pair_cap_per_impl": cap, "note": "where a per-impl pair grid exceeds the cap the larger pool is traversed with a fixed stride (recorded under thinned/*); the run is then exhaustive over the stated sub-grid only"}),
         exhaustive: !thinned,
